@@ -89,6 +89,13 @@ pub fn exec(tag: i64, inp: &[i64]) -> Vec<i64> {
 
 /// One random operation over the 14-bit CC scanner's alphabet.
 pub fn random_op(r: &mut Rng, nch: u64, v: &mut Vec<i64>) {
+    // sometimes repeat an earlier operation of this history verbatim
+    if v.len() >= 8 && v.len() % 4 == 0 && r.chance(1, 8) {
+        let i = 4 * r.below((v.len() / 4) as u64) as usize;
+        let op = [v[i], v[i + 1], v[i + 2], v[i + 3]];
+        v.extend_from_slice(&op);
+        return;
+    }
     let kind = *[0i64, 0, 0, 1, 5].get(r.below(5) as usize).unwrap();
     let c = r.below(nch) as i64;
     match r.below(20) {
@@ -102,14 +109,21 @@ pub fn random_op(r: &mut Rng, nch: u64, v: &mut Vec<i64>) {
             // Control Change with an arbitrary controller
             v.extend_from_slice(&[kind, 176 + c, r.below(128) as i64, r.below(128) as i64]);
         }
-        3..=10 => {
+        3 | 4 => {
+            // traffic of the other multi-message constructs on the same channel: (N)RPN
+            // number / data entry / increment / decrement controllers (6 and 38 overlap with the
+            // 14-bit Control Change pair 6/38)
+            let n = r.pick(&[98i64, 99, 100, 101, 6, 38, 96, 97]);
+            v.extend_from_slice(&[kind, 176 + c, n, r.below(128) as i64]);
+        }
+        5..=10 => {
             // MSB of a small set of controllers
-            let n = r.pick(&[0i64, 1, 2, 31]);
+            let n = r.pick(&[0i64, 1, 2, 6, 31]);
             v.extend_from_slice(&[kind, 176 + c, n, r.below(128) as i64]);
         }
         _ => {
             // LSB, mostly matching one of the small set
-            let n = r.pick(&[32i64, 33, 34, 63, 35, 64]);
+            let n = r.pick(&[32i64, 33, 34, 38, 63, 35, 64]);
             v.extend_from_slice(&[kind, 176 + c, n, r.below(128) as i64]);
         }
     }
@@ -118,9 +132,11 @@ pub fn random_op(r: &mut Rng, nch: u64, v: &mut Vec<i64>) {
 pub fn random_history(r: &mut Rng, maxlen: u64, v: &mut Vec<i64>) {
     let len = r.below(maxlen + 1);
     let nch = r.pick(&[1u64, 2, 3, 16]);
+    let mut ops = Vec::new();
     for _ in 0..len {
-        random_op(r, nch, v);
+        random_op(r, nch, &mut ops);
     }
+    v.extend(ops);
 }
 
 pub fn gen_c07(tier: Tier, seed: u64, em: &mut Emitter) {
@@ -150,11 +166,24 @@ pub fn gen_c07(tier: Tier, seed: u64, em: &mut Emitter) {
     let n = if tier == Tier::Thorough { 200_000 } else { 6_000 };
     for i in 0..n {
         let c = r.below(16) as i64;
-        let cnn = r.below(32) as i64;
+        let cnn = if r.chance(1, 3) { r.pick(&[0i64, 1, 6, 31]) } else { r.below(32) as i64 };
         let v = if i % 3 == 0 { r.pick(&[0i64, 127, 128, 16383, 16256]) } else { r.below(16384) as i64 };
         let k = r.pick(&[0i64, 1, 5, 6]);
         let mut inp = vec![c, cnn, v, k];
-        random_history(&mut r, if tier == Tier::Thorough { 60 } else { 20 }, &mut inp);
+        if r.chance(1, 2) {
+            // prior traffic concentrated on the message's own channel
+            let len = r.below(if tier == Tier::Thorough { 60 } else { 20 });
+            for _ in 0..len {
+                let mut op = Vec::new();
+                random_op(&mut r, 1, &mut op);
+                if op[0] != 2 && op[1] >= 128 && op[1] < 240 {
+                    op[1] = (op[1] / 16) * 16 + c;
+                }
+                inp.extend_from_slice(&op);
+            }
+        } else {
+            random_history(&mut r, if tier == Tier::Thorough { 60 } else { 20 }, &mut inp);
+        }
         em.emit_k("scan_encode", 71, inp);
     }
 }
